@@ -3,7 +3,8 @@
 Functions under contract: every fit entry point executed after an EARLIER fit (and queries) on other symbolic data and
 compared, observable by observable, with the same fit on a fresh equal model; every query / sample method on an
 unfitted object; utils.check_valid_values; utils.get_instance (the C05 obligations are re-generated here).
-The uninitialised-memory clause (np.empty in the vine code) is covered with the vine properties (C16/C17).
+Vines: unfitted misuse, invalid data, refit = fresh fit, and the uninitialised-memory clause (np.empty cells are
+arbitrary values named undef!k; no observable and no branch condition may mention one).
 """
 import itertools
 
@@ -11,7 +12,7 @@ from pyvc import ir, engine, smt, pdmodel, libmodel, values
 from pyvc.report import Ob
 from pyvc.values import Sym, Lane, Arr2, State
 from pyvc.interp import Obj, PyRaise, ATTR_HOOKS
-from . import uni, biv, gm
+from . import uni, biv, gm, vine
 from .uni import term
 
 LEVEL = 'proof'
@@ -198,6 +199,7 @@ def build(chk):
     build_gaussian(chk)
     build_unfitted(chk)
     build_invalid(chk)
+    build_vines(chk)
     from . import C05
     n0 = len(chk.obs)
     C05.build_get_instance(chk)
@@ -208,9 +210,221 @@ def build(chk):
         'history reduces to this step because the step leaves a state observably equal to a fresh fit',
         'reals not floats; library calls deterministic',
     ]
-    chk.not_addressed += [
-        {'clause': 'no result depends on uninitialised memory', 'reason': 'np.empty is only used in the vine code: see C16/C17'},
-    ]
+
+
+def vine_replay(kind, vt, d):
+    def replay(env):
+        import warnings
+        import numpy as np
+        import pandas as pd
+        warnings.simplefilter('ignore')
+        from copulas.multivariate import VineCopula
+        from copulas.errors import NotFittedError
+        bad = []
+        if kind == 'unfitted':
+            for meth, arg in (('sample', 3), ('get_likelihood', np.array([[0.3, 0.6]]))):
+                try:
+                    getattr(VineCopula(vt), meth)(arg)
+                    bad.append('unfitted %s returned a value' % meth)
+                except NotFittedError:
+                    pass
+                except Exception as e:      # noqa
+                    bad.append('unfitted VineCopula.%s raises %s, not NotFittedError' % (meth, type(e).__name__))
+        elif kind == 'invalid':
+            for name, X in (('empty', pd.DataFrame({'a': [], 'b': []})), ('nan', pd.DataFrame({'a': [1., np.nan], 'b': [0., 1.]})),
+                            ('text', pd.DataFrame({'a': ['x', 'y'], 'b': [0., 1.]}))):
+                v = VineCopula(vt)
+                try:
+                    v.fit(X)
+                    bad.append('fit accepted %s data' % name)
+                except ValueError:
+                    if v.fitted:
+                        bad.append('%s data: ValueError but fitted is True' % name)
+                except Exception as e:      # noqa
+                    bad.append('%s data: %s instead of ValueError' % (name, type(e).__name__))
+        else:
+            for seed in range(6):
+                rs = np.random.RandomState(seed)
+                A = rs.normal(size=(d, d))
+                X = pd.DataFrame(rs.multivariate_normal(np.zeros(d), A @ A.T + 0.3 * np.eye(d), 70), columns=vine.LABELS[:d])
+                X0 = pd.DataFrame(rs.normal(size=(40, 3)) @ rs.normal(size=(3, 3)) + 5, columns=['p', 'q', 'r'])
+                u = rs.uniform(0.2, 0.8, size=(1, d))
+                outs = []
+                for fill, hist in ((np.nan, False), (7.0, False), (7.0, True)):
+                    with vine.poisoned_empty(fill):
+                        v = VineCopula(vt)
+                        if hist:
+                            v.fit(X0, truncated=1)
+                        v.fit(X, truncated=d)
+                        dd = v.to_dict()
+                        outs.append((repr(dd), float(v.get_likelihood(u))))
+                if kind == 'undef' and repr(outs[0]) != repr(outs[1]):
+                    a, b = outs[0][0], outs[1][0]
+                    i = next((k for k in range(min(len(a), len(b))) if a[k] != b[k]), 0)
+                    bad.append('seed %d: the fitted model differs when np.empty is filled with NaN or with 7: ...%s... vs ...%s...' %
+                               (seed, a[max(0, i - 60):i + 30], b[max(0, i - 60):i + 30]))
+                if kind == 'refit' and repr(outs[1]) != repr(outs[2]):
+                    bad.append('seed %d: fit(X) after an earlier fit differs from fit(X) on a fresh model' % seed)
+                if bad:
+                    break
+        return {'confirmed': bool(bad), 'detail': bad[0] if bad else 'native %s vines: %s clause holds on the tried tables' % (vt, kind),
+                'input': {'vine_type': vt, 'd': d, 'kind': kind}}
+    return replay
+
+
+def build_vines(chk):
+    """VineCopula: unfitted misuse, invalid training data, no dependence on np.empty contents, refit = fresh fit"""
+    VINE = vine.VINE
+    chk.under_contract(engine.new_interp().source, [VINE + '.fit', VINE + '.sample', VINE + '.get_likelihood',
+                                                    vine.TREE + 'Tree.get_tau_matrix', vine.TREE + 'Tree.get_likelihood',
+                                                    vine.TREE + 'Edge.get_likelihood', vine.TREE + 'Tree._sort_tau_by_y',
+                                                    vine.TREE + 'CenterTree.get_anchor'])
+    # -- unfitted --------------------------------------------------------------------------------------------------
+    for vt in ('center', 'direct', 'regular'):
+        for meth in ('sample', 'get_likelihood'):
+            I = engine.new_interp()
+
+            def body(c, I=I, vt=vt, meth=meth):
+                m = I.call_qual(VINE, [vt], {})
+                c.assume(ir.ge(M, 1))
+                arg = Sym(M) if meth == 'sample' else Arr2([Lane(ir.var('qa'), 1), Lane(ir.var('qb'), 1)], 1)
+                return I.call_method(m, meth, [arg])
+            with vine.mode():
+                res, _ = engine.run_paths(I, body)
+            for j, r in enumerate(res):
+                if r.outcome == 'unsupported':
+                    chk.undecided.append(('C19.unfitted.vine.%s.%s.exec' % (vt, meth), 'executor', str(r.value)))
+                    continue
+                okk = r.outcome == 'raise' and r.value.clsname == 'NotFittedError'
+                what = r.value.clsname if r.outcome == 'raise' else 'returned a value'
+                chk.add(Ob('C19.unfitted.vine.%s.%s.%d' % (vt, meth, j), r.pc, ir.const(bool(okk)), function=VINE + '.' + meth,
+                           free_ufs_ok=True, replay=vine_replay('unfitted', vt, 2),
+                           clause='querying or sampling an unfitted vine raises NotFittedError [%s]' % what))
+    # -- invalid training data -----------------------------------------------------------------------------------------
+    labels = ['a', 'b']
+    for scen in ('empty', 'non_numeric', 'nan'):
+        I = engine.new_interp()
+        gm.install_rootfinders(I)
+        vine.install_contracts(I)
+
+        def body(c, I=I, scen=scen):
+            m = I.call_qual(VINE, ['regular'], {})
+            X = gm.training_frame(labels)
+            c.assume(ir.eq(gm.N, 0) if scen == 'empty' else ir.ge(gm.N, 1))
+            if scen == 'non_numeric':
+                X.np_dtype = 'object'
+            if scen == 'nan':
+                for l in labels:
+                    values.NANABLE.add(gm.colvar(l))
+                c.assume(ir.uf('isnan', [gm.colvar(labels[0])], 'B'))
+            writes = []
+            hook = lambda obj, name, v: writes.append(name) if obj is m else None      # noqa: E731
+            ATTR_HOOKS.append(hook)
+            try:
+                I.call_method(m, 'fit', [X])
+            finally:
+                ATTR_HOOKS.remove(hook)
+                c.out['writes'] = list(writes)
+                c.out['fitted'] = I.getattr(m, 'fitted')
+                for l in labels:
+                    values.NANABLE.discard(gm.colvar(l))
+            return None
+        with vine.mode():
+            res, _ = engine.run_paths(I, body)
+        for j, r in enumerate(res):
+            if r.outcome == 'unsupported':
+                chk.undecided.append(('C19.invalid.vine.%s.exec' % scen, 'executor', str(r.value)))
+                continue
+            st = r.state or {}
+            okk = r.outcome == 'raise' and r.value.clsname == 'ValueError' and not st.get('writes') and st.get('fitted') is False
+            chk.add(Ob('C19.invalid.vine.%s.%d' % (scen, j), r.pc, ir.const(bool(okk)), function='copulas.utils.check_valid_values',
+                       free_ufs_ok=True, replay=vine_replay('invalid', 'regular', 2),
+                       clause='VineCopula.fit rejects %s training data with ValueError before writing anything, and stays unfitted '
+                              '[%s; wrote %r; fitted=%r]' % (scen, r.value.clsname if r.outcome == 'raise' else r.outcome,
+                                                             st.get('writes'), st.get('fitted'))))
+    # -- no result depends on uninitialised memory; a refit equals a fresh fit -------------------------------------------
+    dims = (2, 3, 4) if chk.tier == 'quick' else (2, 3, 4, 5)
+    for vt in ('center', 'direct', 'regular'):
+        for d in dims:
+            for hist in (False, True):
+                if hist and d != 3:
+                    continue
+                I = engine.new_interp()
+                gm.install_rootfinders(I)
+                vine.install_contracts(I)
+                uq = [ir.var('uq_%d' % i) for i in range(d)]
+
+                def body(c, I=I, d=d, vt=vt, hist=hist, uq=uq):
+                    m = vine.fit_vine(I, c, d, vt, truncated=d)
+                    c.assume(ir.and_(*[ir.and_(ir.gt(x, 0), ir.lt(x, 1)) for x in uq]))
+                    c.out['dict'] = I.call_method(m, 'to_dict', [])
+                    c.out['lik'] = I.call_method(m, 'get_likelihood', [Arr2([Lane(x, 1) for x in uq], 1)])
+                    if hist:
+                        n0 = Sym(ir.var('n0', 'I'))
+                        c.assume(ir.ge(n0.t, 2))
+                        labels0 = ['p', 'q', 'r']
+                        X0 = pdmodel.Frame(labels0, {l: Lane(ir.var('w_%s@i' % l), n0) for l in labels0}, n0)
+                        for l in labels0:
+                            c.assume(ir.gt(ir.uf('n_unique', [ir.var('w_%s' % l, 'U')], 'I'), 1))
+                        m2 = I.call_qual(VINE, [vt], {})
+                        I.call_method(m2, 'fit', [X0, 1])
+                        I.call_method(m2, 'get_likelihood', [Arr2([Lane(ir.var('uu_%d' % i), 1) for i in range(3)], 1)])
+                        m2 = vine.fit_vine(I, c, d, vt, truncated=d, model=m2)
+                        c.out['dict2'] = I.call_method(m2, 'to_dict', [])
+                        try:
+                            c.out['lik2'] = I.call_method(m2, 'get_likelihood', [Arr2([Lane(x, 1) for x in uq], 1)])
+                        except engine.paths.Unsupported as e:
+                            c.out['lik2'] = 'unsupported: %s' % str(e)[:120]
+                    return None
+                with vine.mode():
+                    res, _ = engine.run_paths(I, body, max_paths=200000)
+                k = 0
+                for r in res:
+                    tag = 'vine.%s.d%d%s' % (vt, d, '.refit' if hist else '')
+                    if r.outcome == 'unsupported':
+                        chk.undecided.append(('C19.%s.exec' % tag, 'executor', str(r.value)))
+                        continue
+                    if r.outcome != 'return':
+                        chk.add(Ob('C19.%s.no_exception.%s' % (tag, getattr(r.value, 'clsname', '?')), r.pc, ir.FALSE,
+                                   function=VINE + '.fit', free_ufs_ok=True, replay=vine_replay('refit' if hist else 'undef', vt, d),
+                                   clause='fit%s succeeds [%s]' % (' after an earlier fit' if hist else '',
+                                                                   str(getattr(r.value, 'args', ''))[:80])))
+                        continue
+                    k += 1
+                    st = r.state
+                    if not hist:
+                        where = []
+                        for pth, x in vine.flatten(st['dict']):
+                            if isinstance(x, ir.T) and vine.mentions_undef(x):
+                                where.append('to_dict()%s' % pth)
+                        if isinstance(st['lik'], Sym) and vine.mentions_undef(st['lik'].t):
+                            where.append('get_likelihood(u)')
+                        for p in r.pc:
+                            if vine.mentions_undef(p):
+                                where.append('a branch condition: %s' % ir.show(p)[:80])
+                                break
+                        chk.add(Ob('C19.%s.no_uninitialised_memory.%d' % (tag, k), r.pc, ir.const(not where),
+                                   backends=('syntactic',), function=vine.TREE + 'Tree.get_tau_matrix',
+                                   replay=vine_replay('undef', vt, d),
+                                   clause='no observable of the fitted vine (to_dict, get_likelihood, the choices made while '
+                                          'building the trees) depends on a cell of an np.empty array that was never written%s'
+                                          % (' [%s]' % '; '.join(where[:3]) if where else '')))
+                    else:
+                        goal, diff = vine.same_tree(st['dict'], st['dict2'])
+                        chk.add(Ob('C19.%s.same_as_fresh.to_dict.%d' % (tag, k), r.pc, goal, function=VINE + '.fit',
+                                   free_ufs_ok=True, replay=vine_replay('refit', vt, d),
+                                   clause='after an earlier fit (and a query) on another table, fit(X) gives the same to_dict() as '
+                                          'fit(X) on a fresh vine%s' % (' [%s]' % diff if diff else '')))
+                        a, b = st['lik'], st['lik2']
+                        if isinstance(b, str):
+                            chk.undecided.append(('C19.%s.same_as_fresh.get_likelihood.%d' % (tag, k), 'executor', b))
+                            continue
+                        chk.add(Ob('C19.%s.same_as_fresh.get_likelihood.%d' % (tag, k), r.pc,
+                                   ir.eq(a.t, b.t) if isinstance(a, Sym) and isinstance(b, Sym) else ir.FALSE,
+                                   function=VINE + '.fit', free_ufs_ok=True, replay=vine_replay('refit', vt, d),
+                                   clause='... and the same get_likelihood(u)'))
+                if k == 0 and not chk.undecided:
+                    chk.engine_error('C19.vine.%s.d%d: no returning path' % (vt, d))
 
 
 def build_univariate(chk):
